@@ -35,6 +35,8 @@ def gen_case(rng, cid, max_len=3, max_depth=2, allow=None, short_prob=0.0,
             need = None
             if cid in _direct.POOL_SINGLE_EPISODE:
                 max_eps = 1
+            else:
+                ep = (cid % 8 != 7)         # the fixed pool: an episode feature whatever the random stream does
         else:
             chain, d = sg.gen_chain(rng, ns, nu, max_len, max_depth, allow)
         if not chain:
@@ -48,7 +50,7 @@ def gen_case(rng, cid, max_len=3, max_depth=2, allow=None, short_prob=0.0,
                                     max_eps=max_eps if ep else 1,
                                     many=True if (ep and max_eps >= 3 and cid % 40 == 7) else None,
                                         # the fixed pool of pipelines meets non-contiguous arrangements whatever the random stream does
-                                        mode=(['interleave', 'shuffleblocks', 'interleave', 'desc'][cid % 4] if cid < len(_direct.CHAIN_POOL) else None))
+                                        mode=(['interleave', 'chunks', 'interleave', 'desc', 'chunks', 'shuffleblocks'][cid % 6] if cid < len(_direct.CHAIN_POOL) else None))
         if not ep:
             order = [0] * len(order)
         X = sg.gen_data(rng, order, ns, nu, ep, tagged=tagged)
